@@ -74,6 +74,15 @@ def check_case(ctx, cs):
         from ..adapter import shape_floats as _sf
         f_ = _sf(a)
         pd_ = len(a["deg"])
+        # (0) the same definition reached by correcting a weight through get / edit in place / set: equal to the plainly built one
+        if a["rat"]:
+            try:
+                X = build(a, **extra)
+                Y = build(a, edit_back=True, **extra)
+                if not (X == Y and Y == X) or (X != Y):
+                    ctx.violate(site, tg + ["weights_corrected_by_edit_back"], small, {"X==Y": X == Y})
+            except Exception as e:
+                ctx.violate(site, tg + ["weights_corrected_by_edit_back", "raises"], small, {"exception": repr(e)[:200]})
         # (1) a deep copy that re-assigns its own unweighted control points (getters not used before) still equals its source
         if a["rat"]:
             try:
